@@ -103,14 +103,20 @@ func peach(fm *Frame, opts peachOpt, f Callable, inputs Inputs) error {
 			return
 		}
 		if workerSema != nil {
-			acquireErr := workerSema.Acquire(ctx, 1)
+			if workerSema.Acquire(ctx, 1) != nil {
+				// The evaluation was interrupted while waiting for a free
+				// worker. No token is held, so starting the callback would
+				// exceed the limit and its Release would panic; stop
+				// processing inputs instead. The interruption itself is
+				// reported by the caller when it sees the cancelled context.
+				atomic.StoreInt32(&broken, 1)
+				return
+			}
 			// A callback may have broken or failed while we were blocked in
 			// Acquire; test the flag again so that no further callback is
 			// started (this makes &num-workers=1 equivalent to each).
 			if atomic.LoadInt32(&broken) != 0 {
-				if acquireErr == nil {
-					workerSema.Release(1)
-				}
+				workerSema.Release(1)
 				return
 			}
 		}
